@@ -69,7 +69,7 @@ def check(run, driver):
                 levels = int(rng.choice([2, 4, 16, 1024])); salt = int(rng.integers(0, 1000)); nan_own = bool(rng.integers(0, 2))
                 af, ab = float(rng.choice([0.125, 0.25, 0.5])), float(rng.choice([0.0625, 0.25, 0.5]))
                 nsh = int(rng.integers(2, 9))
-                kset = dict(metric=["euclidean", "cityblock", "chebyshev"][count % 3], k_means=int(rng.integers(1, 5)), bandwidth=["silverman", "scott", 0.7][count % 3])
+                kset = dict(metric=["euclidean", "cityblock", "chebyshev", "minkowski"][count % 4], k_means=int(rng.integers(1, 5)), bandwidth=["silverman", "scott", 0.7][count % 3])
                 s = DC.coded_series(T, n)
                 s0 = s.copy()
                 est = DC.ScriptedEstimator(levels, salt, nan_own)
@@ -148,6 +148,7 @@ def check(run, driver):
             plans.append((info, METHODS[(rep + ESTIMATORS.index(info)) % 4]))
     ntests = 0
     hoeff = []
+    hoeff_plan = []
     for info, method in plans:
         n = int(rng.integers(2, 4)); L = int(rng.integers(1, 3)); T = int(rng.integers(40, 81)) if info not in ("geometric_knn", "poisson") else 40
         nsh = 20
@@ -160,7 +161,10 @@ def check(run, driver):
             for t in range(1, T):
                 data[t, 1] += 0.95 * data[t - 1, 0]
         k = int(rng.integers(2, 5))
-        kw = dict(method=method, information=info, max_lag=L, alpha_forward=0.1, alpha_backward=0.1, n_shuffles=nsh, k_means=k, metric="euclidean", bandwidth="silverman")
+        metric = ["euclidean", "minkowski", "cityblock", "chebyshev"][len(hoeff_plan) % 4] if info in ("knn", "geometric_knn") else "euclidean"
+        bw = ["silverman", "scott", 0.6][len(hoeff_plan) % 3] if info == "kde" else "silverman"
+        hoeff_plan.append(info)
+        kw = dict(method=method, information=info, max_lag=L, alpha_forward=0.1, alpha_backward=0.1, n_shuffles=nsh, k_means=k, metric=metric, bandwidth=bw)
         with quiet():
             G = discover_network(data.copy(), **kw)
         names = [f"X{i}" for i in range(n)]
@@ -175,7 +179,7 @@ def check(run, driver):
             X = lagcol(data, L, pos[a], lag).reshape(-1, 1); Y = data[L:, [pos[b]]]
             others = [(a2, l2) for (a2, l2) in by_target[b] if (a2, l2) != (a, lag)]
             Z = np.column_stack([lagcol(data, L, pos[a2], l2) for (a2, l2) in others]) if others else None
-            want = cmi_fn(X, Y, Z, method=info, metric="euclidean", k=k, bandwidth="silverman")
+            want = cmi_fn(X, Y, Z, method=info, metric=metric, k=k, bandwidth=bw)
             same = (math.isnan(want) and math.isnan(c)) or abs(want - c) <= 1e-12 * max(1.0, abs(want))
             if not same:
                 run.prop_fail("edge cmi differs from the public estimator evaluated on series u delayed by tau, series v at the present time, given the other reported parents",
@@ -189,7 +193,7 @@ def check(run, driver):
                 g2 = np.random.default_rng(int(rng.integers(0, 2**31)))
                 cnt = 0
                 for _ in range(m2):
-                    vv = cmi_fn(X[g2.permutation(len(X))], Y, Z, method=info, metric="euclidean", k=k, bandwidth="silverman")
+                    vv = cmi_fn(X[g2.permutation(len(X))], Y, Z, method=info, metric=metric, k=k, bandwidth=bw)
                     cnt += 1 if vv >= c else 0
                 hoeff.append((case, (a, b, lag), p, cnt / m2, nsh, m2))
     ntests = max(1, len(hoeff))
